@@ -8,6 +8,7 @@ WT="$1"; MD="$2"; DEST="$3"; CMD="$4"
 export CARGO_NET_OFFLINE=true
 cd "$WT" || exit 2
 git checkout -q -- . || exit 2
+git clean -fdq -e out -e target   # demo copies left behind by earlier runs would be counted as tests
 DEMO=$(ls "$MD"/demo.* | head -1)
 git apply --check "$MD/patch.diff" || { echo "RESULT patch-does-not-apply"; exit 1; }
 git apply "$MD/patch.diff"
@@ -16,9 +17,9 @@ if git diff --name-only | grep -qE '(^|/)tests/|_test\.rs'; then echo "WARNING: 
 T=$(cargo test --workspace --no-fail-fast --offline 2>&1 | grep "^test result" | awk '{p+=$4; f+=$6} END{print p" "f}')
 echo "suite with patch: passed/failed = $T"
 mkdir -p "$(dirname "$DEST")"; cp "$DEMO" "$DEST"
-( eval "$CMD" ) >/tmp/seed_demo_with.log 2>&1; W=$?
+( eval "$CMD" ) >"$WT/out/_with.log" 2>&1; W=$?
 git checkout -q -- .
-( eval "$CMD" ) >/tmp/seed_demo_without.log 2>&1; WO=$?
+( eval "$CMD" ) >"$WT/out/_without.log" 2>&1; WO=$?
 rm -f "$DEST"
 echo "demo exit with patch: $W (must be non-zero); without patch: $WO (must be 0)"
-if [ "$T" = "603 0" ] && [ $W -ne 0 ] && [ $WO -eq 0 ]; then echo "RESULT valid"; else echo "RESULT INVALID"; tail -5 /tmp/seed_demo_with.log; tail -5 /tmp/seed_demo_without.log; fi
+if [ "$T" = "603 0" ] && [ $W -ne 0 ] && [ $WO -eq 0 ]; then echo "RESULT valid"; else echo "RESULT INVALID"; fi
